@@ -9,6 +9,8 @@ import (
 
 	"github.com/glebziz/fs_db/verifh/checks"
 	"github.com/glebziz/fs_db/verifh/conc"
+	"github.com/glebziz/fs_db/verifh/dbh"
+	"github.com/glebziz/fs_db/verifh/seq"
 	"github.com/glebziz/fs_db/verifh/hk"
 	"github.com/glebziz/fs_db/verifh/litmus"
 )
@@ -33,6 +35,9 @@ func main() {
 		}
 	case "worker":
 		conc.WorkerMain()
+	case "seqworker":
+		defer dbh.Cleanup()
+		seq.WorkerMain(os.Args[2])
 	case "check":
 		if len(os.Args) < 4 {
 			fmt.Fprintln(os.Stderr, "usage: verifh check <ID> quick|thorough")
@@ -42,7 +47,9 @@ func main() {
 			fmt.Fprintln(os.Stderr, "SELF-CHECK FAILED:", err)
 			os.Exit(2)
 		}
-		os.Exit(checks.Run(os.Args[2], os.Args[3]))
+		rc := checks.Run(os.Args[2], os.Args[3])
+		dbh.Cleanup()
+		os.Exit(rc)
 	case "explore":
 		// debugging aid: verifh explore <scenario> <params> <bound>
 		var b int
